@@ -244,8 +244,11 @@ def run_harness(prop, conf, tier, seed, outdir, replay_ids=None):
 MM = re.compile(r"\(\s*(\d+)(?:%N)?\s*,\s*(ModelDiffers|PropertyFails)\s*\)")
 
 
+EVAL_COQ = None   # Coq tree used to evaluate cases (defaults to COQ; a fallback copy when obligations broke)
+
+
 def eval_shard(path):
-    rc, out = sh(["coqc", "-Q", COQ, "V", path], cwd=os.path.dirname(path), timeout=1200)
+    rc, out = sh(["coqc", "-Q", EVAL_COQ or COQ, "V", path], cwd=os.path.dirname(path), timeout=1200)
     if rc != 0:
         return path, None, out[-2000:]
     m = re.search(r"M\s*=\s*(.*?)\n\s*:\s*list", out, re.S)
@@ -272,6 +275,22 @@ def eval_cases(outdir):
         except OSError:
             pass
     return results, errors, len(shards)
+
+
+def fallback_coq(prop, targets):
+    """A regenerated obligation no longer compiles.  To still search for a concrete failing input, build a private
+    copy of the Coq tree with the last committed gen/Tables.v and evaluate the harness cases (property oracle) there."""
+    fb = os.path.join(V, "work", "coq-fallback-" + prop + ("-" + _h if ALT else ""))
+    sh(["rsync", "-a", "--delete", os.path.join(V, "coq") + "/", fb + "/"])
+    rc, out = sh(["git", "-C", V, "show", "HEAD:coq/gen/Tables.v"])
+    if rc != 0:
+        return None
+    with open(os.path.join(fb, "gen", "Tables.v"), "w") as f:
+        f.write(out)
+    rc, out = sh(["coq_makefile", "-f", "_CoqProject", "-o", "Makefile"], cwd=fb, timeout=120)
+    tg = [t for t in targets if os.path.exists(os.path.join(fb, t[:-1]))]
+    rc, out = sh(["make", "-j16"] + tg, cwd=fb, timeout=1500)
+    return fb if rc == 0 else None
 
 
 # ------------------------------------------------------------------ known findings
@@ -355,6 +374,8 @@ def main(argv):
         if conf.get("tables") and gen_related:
             violations.append(dict(kind="obligation", what="regenerated proof obligation no longer checks: " + where,
                                    detail=out[-3000:], failing=False))
+            global EVAL_COQ
+            EVAL_COQ = fallback_coq(prop, targets)
         else:
             framework_errors.append("Coq build failed: " + out[-3000:])
     else:
@@ -388,7 +409,7 @@ def main(argv):
             violations.append(dict(kind="crash", what="harness run against the implementation aborted", detail=tail, failing=False))
     if os.path.exists(os.path.join(outdir, "meta.json")):
         meta = json.load(open(os.path.join(outdir, "meta.json")))
-        if rc == 0:
+        if rc == 0 or EVAL_COQ:
             mism, errs, shards = eval_cases(outdir)
             for p, e in errs:
                 framework_errors.append("case evaluation failed for %s: %s" % (p, e))
@@ -482,11 +503,18 @@ def main(argv):
     for e in framework_errors:
         log("FRAMEWORK-ERROR:", e)
     if violations:
+        withinput = [v for v in violations if v.get("failing")]
+        if withinput:
+            # a concrete failing input was found: report that, and name the broken obligations/correspondences inside it
+            broken = [dict(kind=v["kind"], what=v["what"], detail=(v.get("detail") or "")[-1500:]) for v in violations if not v.get("failing")]
+            for v in withinput:
+                v["also_broken"] = broken
+            violations = withinput
         for v in violations:
             payload = dict(property=prop, seed=seed, tier=tier, case_ids=v.get("case_ids"),
                            broken=v["what"], kind=v["kind"], verdicts=v.get("verdicts"), cases=v.get("cases"),
                            harness_detail=v.get("harness_detail"), detail=v.get("detail"),
-                           total_disagreeing=v.get("total_disagreeing"),
+                           total_disagreeing=v.get("total_disagreeing"), also_broken=v.get("also_broken"),
                            replay_cmd="./check %s --replay <this file>" % prop)
             path = write_replay(prop, payload)
             suffix = "" if v.get("failing") else " no-failing-input-found"
